@@ -70,7 +70,8 @@ def sortInts (xs : List Int) : List Int := xs.mergeSort (fun a b => decide (a â‰
 
 /-- the tree-form writes of a list at a leaf go through the methods (`SetTF("#i", v)`: `Replace(i, v)` inside the list, else
 `i - Count` times `Add(nil)` and `Add(v)`; `UnsetTF("#i")`: `Delete(i)` â€” `TreeFormGenEq` proves the model's `TF.setL`/`unsetL`
-equal to that): here they are expanded into the corresponding storage operation -/
+equal to that, and `C11_step_shape_list_pad` gives the padded shape `items ++ replicate (i - n) nil ++ [v]`): here they are expanded
+into the corresponding storage operation -/
 def expandTF (cells : List Slice) (t : String) : Option (Op Int) :=
   match t.splitOn " " with
   | ["settf", c, i, v] => match c.toNat?, i.toNat?, parseIntTok v with
